@@ -13,6 +13,7 @@ def run(rep, fb, tier):
 
 
 EXTRAS = [
+    lambda rep, fb, tier: __import__("vf.rules.pybind", fromlist=["x"]).rule_py_record_methods(rep),
     lambda rep, fb, tier: __import__("vf.rules.pyrules", fromlist=["x"]).rule_py_numpy_rebuild(rep),
     lambda rep, fb, tier: __import__("vf.rules.pyrules", fromlist=["x"]).rule_py_simplify_recheck(rep),
     lambda rep, fb, tier: st.rule_family(rep, fb),
